@@ -374,11 +374,16 @@ func execSched(in Ev) []Ev {
 	count := make([]int, procs+1)
 	deadline := time.After(10 * time.Second)
 	nfin := 0
+	done := map[int]bool{}
 	emitFinish := func(p int) {
 		out = append(out, Ev{"op": "finish", "p": p, "result": results[p]})
 		nfin++
+		done[p] = true
 	}
 	for _, p := range sched {
+		if done[p] {
+			continue // it finished before the schedule expected it to (its finish event is recorded; nothing to release)
+		}
 		// wait until process p stands at a gate (or has finished early)
 		for {
 			if _, ok := waiting[p]; ok {
